@@ -129,7 +129,11 @@ func (e *Engine) now() *Term {
 		// default clock: concrete, strictly increasing by 1 ms per reading (timing-dependent
 		// heuristics are not the subject unless a harness asks for vStub("symtime"))
 		e.nowSeq++
-		t := e.ts.BVConst(64, uint64(1<<50)+uint64(e.nowSeq)*1000000)
+		step := uint64(1000000)
+		if e.stubOn["fineclock"] {
+			step = 1000 // 1 us per reading: for obligations about sub-millisecond intervals
+		}
+		t := e.ts.BVConst(64, uint64(1<<50)+uint64(e.nowSeq)*step+e.clockSkew)
 		e.timeNow = t
 		return t
 	}
@@ -204,7 +208,8 @@ func init() {
 		},
 		hname("vsymbolic"): func(e *Engine, fn *ssa.Function, a []Value) Value { return e.ts.True },
 		hname("vblocked"): func(e *Engine, fn *ssa.Function, a []Value) Value {
-			panic(pathEnd{kind: "blocked", msg: "harness"})
+			e.block("harness")
+			return nil
 		},
 		hname("vTimeAgo"): func(e *Engine, fn *ssa.Function, a []Value) Value {
 			// a time d nanoseconds before "now" (d >= 0 assumed by caller)
@@ -359,6 +364,12 @@ func init() {
 		"(time.Time).Equal": func(e *Engine, fn *ssa.Function, a []Value) Value {
 			return e.ts.Eq(timeExt(a[0]), timeExt(a[1]))
 		},
+		// time.Unix(sec, nsec): the engine's Time carries Unix nanoseconds in ext (the Unix
+		// epoch itself coincides with the zero Time in this representation; harnesses do not use it)
+		"time.Unix": func(e *Engine, fn *ssa.Function, a []Value) Value {
+			ns := e.ts.BvBin(OpBvAdd, e.ts.BvBin(OpBvMul, a[0].(*Term), e.ts.BVConst(64, 1000000000)), a[1].(*Term))
+			return e.timeV(ns)
+		},
 		"(time.Time).UnixNano": func(e *Engine, fn *ssa.Function, a []Value) Value { return timeExt(a[0]) },
 		"time.AfterFunc": func(e *Engine, fn *ssa.Function, a []Value) Value {
 			t := e.namedType("time", "Timer")
@@ -375,14 +386,14 @@ func init() {
 			g := e.ghostOf(c)
 			g.timerArmed = true
 			g.timerDur = a[0].(*Term)
-			// channel C never fires by itself
+			// channel C delivers when the receiver has nothing else to wait for (ops.go)
 			e.objSeq++
-			c.kids[0].v = &ChanObj{cap: 1, never: true, id: e.objSeq}
+			c.kids[0].v = &ChanObj{cap: 1, timer: g, id: e.objSeq}
 			return Ptr{c: c}
 		},
 		"time.After": func(e *Engine, fn *ssa.Function, a []Value) Value {
 			e.objSeq++
-			return &ChanObj{cap: 1, never: true, id: e.objSeq}
+			return &ChanObj{cap: 1, timer: &ghostState{timerArmed: true, timerDur: a[0].(*Term)}, id: e.objSeq}
 		},
 		"(*time.Timer).Stop": func(e *Engine, fn *ssa.Function, a []Value) Value {
 			g := e.ghostOf(a[0].(Ptr).c)
@@ -521,16 +532,41 @@ func init() {
 			return Ptr{c: c}
 		},
 		"(*sync.Cond).Wait": func(e *Engine, fn *ssa.Function, a []Value) Value {
-			panic(pathEnd{kind: "blocked", msg: "sync.Cond.Wait"})
+			e.block("sync.Cond.Wait")
+			return nil
 		},
 		"(*sync.Cond).Broadcast": func(e *Engine, fn *ssa.Function, a []Value) Value {
-			e.ghostOf(a[0].(Ptr).c).signals++
+			g := e.ghostOf(a[0].(Ptr).c)
+			g.signals++
+			g.waiters = 0
 			return nil
 		},
 		"(*sync.Cond).Signal": func(e *Engine, fn *ssa.Function, a []Value) Value {
-			e.ghostOf(a[0].(Ptr).c).signals++
+			g := e.ghostOf(a[0].(Ptr).c)
+			g.signals++
+			if g.waiters > 0 {
+				g.waiters--
+			}
 			return nil
 		},
+		// ghost waiters of a condition variable: vCondPark(c, n) stands for n goroutines parked
+		// in c.Wait(); vCondParked(c) is how many of them have not been woken since
+		hname("vCondPark"): func(e *Engine, fn *ssa.Function, a []Value) Value {
+			e.ghostOf(a[0].(Ptr).c).waiters = e.concreteInt(a[1], "vCondPark")
+			return nil
+		},
+		hname("vCondParked"): func(e *Engine, fn *ssa.Function, a []Value) Value {
+			return e.intConst(e.ghostOf(a[0].(Ptr).c).waiters)
+		},
+		hname("vMustNotBlock"): func(e *Engine, fn *ssa.Function, a []Value) Value {
+			e.noBlockMsg = a[0].(StringV).s
+			return nil
+		},
+		hname("vMayBlock"): func(e *Engine, fn *ssa.Function, a []Value) Value {
+			e.noBlockMsg = ""
+			return nil
+		},
+		hname("vOnMain"): func(e *Engine, fn *ssa.Function, a []Value) Value { return e.ts.True },
 		hname("vCondSignals"): func(e *Engine, fn *ssa.Function, a []Value) Value {
 			return e.intConst(e.ghostOf(a[0].(Ptr).c).signals)
 		},
